@@ -1,4 +1,144 @@
-import PysamlModel.Model.Sp
-import PysamlModel.Spec.Sp
+/-
+  C04 — Assertions addressed to someone else are never accepted.
+  Every statement is about the full `Sp.process` (any configuration, clock, message content,
+  audience structure of any size, any number of assertions / confirmations).
+-/
+import PysamlModel.Proofs.Sp
+
 namespace C04
+open Sp
+
+/-- Every assertion the SP can see was accepted by `_assertion` when identity is produced. -/
+theorem visible_accepted {cfg : Cfg} {env : Env} {r : Response} {o : Reported}
+    (h : process cfg env r = .identity o) :
+    ∃ rs, ∀ a ∈ visible r, ∃ v s s', checkAssertion cfg env rs v s a = .ok s' := by
+  obtain ⟨_, cf, _, rs, p, _, _, _, hv, _, _, _, _⟩ := process_identity_inv h
+  obtain ⟨_, hp⟩ := verify_some_inv hv
+  obtain ⟨⟨st1, h1, h2⟩, _⟩ := parseAssertion_inv hp
+  refine ⟨rs, ?_⟩
+  intro a ha
+  unfold visible at ha
+  rcases List.mem_append.mp ha with hd | hpl
+  · obtain ⟨s, s', hs⟩ := checkAll_inv h2 a hd
+    exact ⟨true, s, s', hs⟩
+  · obtain ⟨s, s', hs⟩ := checkAll_inv h1 a hpl
+    exact ⟨false, s, s', hs⟩
+
+/-- Audience: identity is produced only if every (non-empty) AudienceRestriction of every visible
+    assertion names the provider's own entityID — for restriction lists of any length. -/
+theorem C04_audience {cfg : Cfg} {env : Env} {r : Response} {o : Reported}
+    (h : process cfg env r = .identity o) :
+    ∀ a ∈ visible r, ∀ c, a.conditions = some c → ∀ rs ∈ c.audiences, rs ≠ [] → ∃ x ∈ rs, pyStrip x = cfg.entityId := by
+  obtain ⟨rs, hacc⟩ := visible_accepted h
+  intro a ha c hc restr hr hne
+  obtain ⟨v, s, s', hs⟩ := hacc a ha
+  obtain ⟨_, st1, st2, _, e2, _, _⟩ := checkAssertion_inv hs
+  have haud := (conditionOk_facts e2).1
+  unfold audienceOk at haud
+  rw [hc] at haud
+  have := List.all_eq_true.mp haud restr hr
+  simp only [Bool.or_eq_true, List.isEmpty_iff] at this
+  rcases this with h1 | h1
+  · exact absurd h1 hne
+  · obtain ⟨x, hx, hm⟩ := List.any_eq_true.mp h1
+    exact ⟨x, hx, by simpa using hm⟩
+
+/-- Destination: over a browser binding a present Destination must be one of the provider's own
+    endpoints for the binding used. -/
+theorem C04_destination {cfg : Cfg} {env : Env} {r : Response} {o : Reported}
+    (h : process cfg env r = .identity o) (hasync : env.asynchop = true)
+    (d : String) (hd : r.destination = some d) (hne : d ≠ "") : d ∈ cfg.returnAddrs := by
+  obtain ⟨_, cf, _, rs, p, _, _, _, hv, _, _, _, _⟩ := process_identity_inv h
+  obtain ⟨henv, _⟩ := verify_some_inv hv
+  obtain ⟨_, hdest, _, _⟩ := verifyEnvelope_true_inv henv
+  unfold destinationOk at hdest
+  have ht : truthy (some d) = true := by simp [truthy, hne]
+  simp only [hasync, Bool.not_true, Bool.false_or, hd, Option.getD_some, ht] at hdest
+  exact List.contains_iff_mem.mp hdest
+
+/-- Recipient: with conversation info, every bearer confirmation that is used names the provider
+    (the entityID the caller gave) or one of its consumer URLs. -/
+theorem C04_recipient {cfg : Cfg} {env : Env} {r : Response} {o : Reported}
+    (h : process cfg env r = .identity o) (hconv : env.convInfo = true) :
+    ∀ a ∈ visible r, ∀ s, a.subject = some s → ∀ sc ∈ s.confs, bearerUsable sc = true →
+      ∃ d rcp, sc.data = some d ∧ d.recipient = some rcp ∧ (env.convEntityId = some rcp ∨ rcp ∈ cfg.returnAddrs) := by
+  obtain ⟨rs, hacc⟩ := visible_accepted h
+  intro a ha s hs sc hsc hus
+  obtain ⟨v, st, st', hchk⟩ := hacc a ha
+  obtain ⟨_, st1, st2, _, _, e3, _⟩ := checkAssertion_inv hchk
+  obtain ⟨s', hs', hfacts, _⟩ := getSubject_facts e3
+  rw [hs] at hs'; cases hs'
+  obtain ⟨d, hd, _, _, rcp, hrcp, hok⟩ := hfacts sc hsc hus
+  refine ⟨d, rcp, hd, hrcp, ?_⟩
+  unfold recipientOk at hok
+  simp only [hconv, Bool.not_true, Bool.false_eq_true, if_false, Bool.or_eq_true, beq_iff_eq] at hok
+  rcases hok with h1 | h1
+  · exact Or.inl h1
+  · exact Or.inr (List.contains_iff_mem.mp h1)
+
+/-- Matching is equality after `str.strip`: an Audience that differs from the entityID after
+    stripping never satisfies a restriction (no prefix / suffix / case leniency). -/
+theorem C04_exact (me : String) (r : List String) (h : ∀ x ∈ r, pyStrip x ≠ me) :
+    restrictionMatches me r = false := by
+  unfold restrictionMatches
+  apply List.any_eq_false.mpr
+  intro x hx
+  have := h x hx
+  simp [this]
+
+/-- The model's outcome always satisfies the decidable specification the driver evaluates on the
+    implementation's outcome. -/
+theorem C04_model_meets_spec (cfg : Cfg) (env : Env) (r : Response) :
+    specC04 cfg env r (process cfg env r) = true := by
+  unfold specC04
+  cases hres : process cfg env r with
+  | noIdentity => simp [Outcome.isIdentity]
+  | rejected e => simp [Outcome.isIdentity]
+  | identity o =>
+    simp only [Outcome.isIdentity, Bool.not_true, Bool.false_or, Bool.and_eq_true]
+    obtain ⟨_, cf, _, rs, p, _, _, _, hv, _, _, _, _⟩ := process_identity_inv hres
+    obtain ⟨henv, _⟩ := verify_some_inv hv
+    obtain ⟨_, hdest, _, _⟩ := verifyEnvelope_true_inv henv
+    refine ⟨hdest, ?_⟩
+    apply List.all_eq_true.mpr
+    intro a ha
+    obtain ⟨rs', hacc⟩ := visible_accepted hres
+    obtain ⟨v, st, st', hchk⟩ := hacc a ha
+    obtain ⟨_, st1, st2, _, e2, e3, _⟩ := checkAssertion_inv hchk
+    simp only [Bool.and_eq_true]
+    refine ⟨(conditionOk_facts e2).1, ?_⟩
+    unfold recipientsOk
+    cases hc : env.convInfo with
+    | false => simp
+    | true =>
+      simp only [Bool.not_true, Bool.false_or]
+      obtain ⟨s, hs, hfacts, _⟩ := getSubject_facts e3
+      rw [hs]
+      apply List.all_eq_true.mpr
+      intro sc hsc
+      cases hus : bearerUsable sc with
+      | false => simp
+      | true =>
+        obtain ⟨d, hd, _, _, rcp, hrcp, hok⟩ := hfacts sc hsc hus
+        simp only [Bool.not_true, Bool.false_or, hd, hrcp]
+        unfold recipientOk at hok
+        simpa [hc] using hok
+
+/-! Non-vacuity: a concrete accepted Response (so the hypotheses above are satisfiable), and the
+    former defect F1 (restrictions [[me],[other]]) is rejected by the model of the repaired code. -/
+
+private def okAssertion : Assertion :=
+  { conditions := some { nooa := some 200, audiences := [["me"], ["x", "me"]] },
+    authn := [{ sessionIndex := some "s" }],
+    subject := some { nameId := some "n", confs := [{ method := .bearer, data := some { nooa := some 200, recipient := some "u", irt := some "r1" } }] } }
+private def okResp : Response :=
+  { sig := .valid, issueInstant := 100, destination := some "u", inResponseTo := some "r1", assertions := [okAssertion] }
+private def okCfg : Cfg := { entityId := "me", returnAddrs := ["u"] }
+private def okEnv : Env := { now := 100, outstanding := [("r1", "/x")], convInfo := true, convEntityId := some "me" }
+
+example : (process okCfg okEnv okResp).isIdentity = true := by decide
+example : process okCfg okEnv { okResp with assertions := [{ okAssertion with
+    conditions := some { nooa := some 200, audiences := [["me"], ["other"]] } }] } = .rejected .audience := by decide
+example : process okCfg okEnv { okResp with destination := some "https://evil" } = .noIdentity := by decide
+
 end C04
